@@ -11,7 +11,8 @@ class SPEC:
             "AddRecordWithExtraElements(k), AddRecordV2 with element lists drawn from the registry (well-typed values; empty values "
             "for template records), UpdateLenInHeader, ResetSet, observe}. Each sequence is run (a) on a long-lived set with a random "
             "prefix before a reset, (b) on a brand-new set, (c) with every add replaced by each of the other two add paths; all must "
-            "give the same observations (type, length, header, record buffers, CreateIPFIXMsg bytes); a prepare with set type Undefined "
+            "give the same observations (type, length, header, record buffers, CreateIPFIXMsg bytes); the convenience constructors MakeTemplateSet / MakeDataSet (`bld make`) replace the set "
+            "under construction by a new one-record set; a prepare with set type Undefined "
             "(refused) may come anywhere in a sequence and must change nothing - such cases are run again without it and compared; the list of records taken out of the "
             "set (GetRecords) right before a reset is kept by the harness and must read the same at every later observation (a new set "
             "shares nothing with the old message, so a reset one must not either). Non-trivial = at least one reset "
@@ -65,6 +66,11 @@ def body_ops(rng, n, sup):
                 parts[j] = "%s=%s" % (ies[j].tok(), G.well_typed_value(rng, ies[j], big_ok=False, maxlen=20))
                 tok = ",".join(parts)
             ops.append("bld add PATH %d %d %s" % (rng.choice([0, 1, 4]), rng.choice([256, 257, 300]), tok))
+        elif r < 0.59:
+            # the convenience constructors MakeTemplateSet / MakeDataSet: a new set with one record replaces the current one
+            ty = rng.choice("td")
+            ies = [rng.choice(sup) for _ in range(rng.choice([0, 1, 2, 5]))]
+            ops.append("bld make %s %d %s" % (ty, rng.choice([256, 257, 65535]), elems_token(rng, ies, ty == "d")))
         elif r < 0.65:
             ops.append("bld upd")
         elif r < 0.83:
